@@ -22,6 +22,7 @@ import hashlib
 import json
 import random
 import sys
+import zlib
 
 import numpy as np
 
@@ -229,6 +230,9 @@ def project_view(v, uni):
 # ---------------------------------------------------------------------------------
 # abstract operation -> real call
 # ---------------------------------------------------------------------------------
+_NAME_LISTS = {}      # per chain: one list object per distinct request, handed to every call that names it
+
+
 def names_arg(names, form):
     if form == "tuple":
         return tuple(names)
@@ -236,7 +240,24 @@ def names_arg(names, form):
         return np.array(list(names))
     if form == "scalar":
         return names[0]
-    return list(names)
+    # a caller typically keeps its list of names and passes the same object again: a callee that
+    # keeps or extends the list it was given shows up in the next call of the chain that uses it
+    return _NAME_LISTS.setdefault(tuple(names), list(names))
+
+
+def _op_variant(op):
+    """deterministic small number derived from the operation (selects memory layouts)"""
+    return zlib.crc32(json.dumps(op, sort_keys=True, default=str).encode())
+
+
+def strided(x):
+    """the same array as every second element of a twice-as-large buffer (non-contiguous, same values)"""
+    if x.ndim == 0 or x.shape[0] == 0:
+        return x
+    big = np.zeros((2 * x.shape[0],) + x.shape[1:], dtype=x.dtype)
+    view = big[::2]
+    view[...] = x
+    return view
 
 
 def snapshot(xs):
@@ -255,6 +276,9 @@ def exec_op(cur, op, pool, uni):
     obs = {"err": "none", "arr": NOARR, "views": [], "fresh": True, "frame": True}
     nxt = cur
     exc = ""
+    var = _op_variant(op)
+    if var % 3 == 0:
+        cur = strided(cur)          # "any memory layout": same values in a non-contiguous array
     try:
         with warnings.catch_warnings():
             warnings.simplefilter("ignore")
@@ -291,6 +315,8 @@ def exec_op(cur, op, pool, uni):
                 src, dst = [cur if o["id"] == "cur" else pool[o["id"]] for o in op["others"]]
                 if op["others"][1]["id"] != "cur":
                     dst = dst.copy()                     # the scenario's other arrays stay pristine
+                if (var // 3) % 2 == 0:
+                    dst = strided(dst)                   # a destination that is a view (e.g. table[::2])
                 snap = snapshot([src])
                 nu.copy_fields(src, dst)
                 obs.update(arr=project(dst, uni), frame=unchanged(snap))
@@ -371,6 +397,7 @@ def run_chain(scen, ops, _memo={}):
     uni, init, pool = m[1]
     cur = init.copy()
     steps = []
+    _NAME_LISTS.clear()
     for op in ops:
         op = expand(op, scen)
         pre = project(cur, uni)
